@@ -840,15 +840,24 @@ func (fa *FA) addGoalCands(goal *Lin, b *ssa.BasicBlock, c *pctx, depth int) boo
 			}
 		}
 		// what the goal says on the entry edges, offered to the phi blocks above
-		for k, p := range m.Preds {
-			if m.Dominates(p) {
-				continue
+		// (on a back edge the value may be a join inside the loop: the goal is offered there too;
+		// assumptions of the query that are stable everywhere, e.g. a candidate precondition on a
+		// parameter, stay available as guards)
+		var stableAssume []*Lin
+		for _, f := range c.assume {
+			if fa.okForInv(fa.fn.Blocks[0], f) {
+				stableAssume = append(stableAssume, f)
 			}
+		}
+		for k, p := range m.Preds {
 			gk := normIneq(goal.substAll(fa.substFor(m, k, goal)))
 			if gk.isConst() {
 				continue
 			}
-			if fa.addGoalCands(gk, p, &pctx{}, depth+1) {
+			if m.Dominates(p) && gk.key() == normIneq(goal).key() {
+				continue
+			}
+			if fa.addGoalCands(gk, p, &pctx{assume: stableAssume}, depth+1) {
 				added = true
 			}
 		}
